@@ -489,6 +489,19 @@ func c01Run(c *Ctx) {
 			tj(&Case{Gen: "multiline-literal-declarations", Src: strings.ReplaceAll(text, "\n", " ")})
 		}
 	}
+	// 9b3. comments of every star shape between operands and operators are not tokens
+	for _, cm := range []string{"/** doc **/", "/**** banner ****/", "/***/", "/* plain */", "/** odd ***/", "/*//*/"} {
+		for _, e := range []string{"2 + 3 %s * 4 %s", "%s 2 ** %s 3 ** 2", "- %s 2 ** 2 %s", "1 < 2 %s == %s 2 > 1", "a %s = b = %s c"} {
+			txt := strings.ReplaceAll(e, "%s", cm)
+			plain := strings.ReplaceAll(e, "%s", "")
+			if c.Mine() {
+				tj(&Case{Gen: "comment-shapes", Src: txt + "; /* end */"})
+			}
+			if c.Mine() && !strings.Contains(e, "a ") {
+				c01Judge(c, &Case{Gen: "paren-print-equivalence", Src: Print(plain) + "\n", Alt: []string{Print(txt) + " /* end */\n"}})
+			}
+		}
+	}
 	// 9c. property names are plain identifiers: every built-in name (and a few other words) as a key of an
 	// object literal, after a dot on the right and on the left of an assignment (tree comparison)
 	{
